@@ -141,6 +141,7 @@ def _strip(n):
 # input class of the one defect this property had on the original tree (BigQuery.prepare_ref_statement works in place on the reference
 # dict shared by all columns of one ALTER .. FOREIGN KEY): decided from the input text, reported under its own class in bigquery mode
 _MULTI_COL_ALTER_FK = re.compile(r"ALTER\s+TABLE[^;]*?FOREIGN\s+KEY\s*\([^)]*,[^)]*\)", re.I)
+_TABLE_OR_ALTER = re.compile(r"\s*(CREATE\s+(\w+\s+)*TABLE|ALTER\s+TABLE)\b", re.I)  # script of tables and their ALTERs only
 
 
 # ---------------------------------------------------------------- the run-level contract
@@ -194,9 +195,10 @@ def run_case(ck, set_name, key, ddl, modes, combos, expect=None, tags=()):
             info = dict(info0, run=run)
             ekey = (key, mode, nn, gbt)
             r = parse(ddl, ctor=ctor, **run)
-            bq_multi_fk = mode == "bigquery" and _MULTI_COL_ALTER_FK.search(ddl) is not None
+            bq_multi_fk = mode == "bigquery" and _MULTI_COL_ALTER_FK.search(ddl) is not None and all(
+                _TABLE_OR_ALTER.match(st) for st in ddl.split(";") if st.strip())
             if r[0] != "ok":
-                cls = "c10:bigquery-multi-column-alter-foreign-key" if bq_multi_fk else "c10:mode-raises:" + r[1]
+                cls = "c10:bigquery-multi-column-alter-foreign-key" if bq_multi_fk and r[1] == "KeyError" else "c10:mode-raises:" + r[1]
                 ck.fail(set_name, ekey, cls, dict(info, observed=r, expected="same entities as the default mode"))
                 continue
             ents, buckets = _flatten(r[1], gbt)
@@ -460,7 +462,7 @@ def check(ck):
     # (ii) every CREATE prefix x qualification x every mode
     for pi, pre in enumerate(PREFIXES):
         for qi, q in enumerate(QUALS):
-            if quick and (pi + qi) % 3:
+            if quick and (pi + qi) % 4:
                 continue
             ddl, ref, exp = make_table("t1", qual=q, prefix=pre)
             run_case(ck, "prefix-x-qualification-x-mode", (pre, q), ddl, all_modes, some_combos(2), expect=[exp], tags=("prefix:" + pre,))
@@ -481,12 +483,12 @@ def check(ck):
             script = ddl + "\n" + ftext.replace("{T}", ref)
             run_case(ck, "follower-x-qualification-x-mode", (ftext, q), script, all_modes if not quick else some_modes(4), some_combos(2, thorough_all=False),
                      expect=[exp[:3] + (cols,)], tags=("follower:" + ftag,))
-    # (v) non-table entities, alone and between two tables
+    # (v) non-table entities and column-less tables (CLONE / LIKE) alone (they are interleaved with tables in (vi))
     for text, ident in OTHERS:
         e = ident + ((None if ident[0] != "table_name" else []),)
         run_case(ck, "other-entities-x-mode", text, text, all_modes, some_combos(2), expect=[e], tags=("other",))
     # (vi) random scripts
-    n_rand = 80 if quick else 600
+    n_rand = 70 if quick else 600
     for i in range(n_rand):
         parts, expect, tags = [], [], []
         for ti in range(rnd.randint(1, 3)):
@@ -535,7 +537,7 @@ def check(ck):
     for i, (cid, ddl) in enumerate(cp):
         if quick:
             others = [m for m in MODES[1:] if m != "bigquery"]
-            modes = ["bigquery"] + [others[(i + j * 5) % len(others)] for j in range(2)]
+            modes = ["bigquery"] + [others[(i + j * 5) % len(others)] for j in range(2 - i % 2)]
             combos = [ALL_COMBOS[i % 4]]
         else:
             modes, combos = list(MODES), ALL_COMBOS
@@ -550,4 +552,4 @@ def check(ck):
             "%d corpus scripts x %s" % (len(CLAUSES), len(PREFIXES), len(QUALS), len(COL_OPTS), len(TABLE_ITEMS), len(FOLL), len(OTHERS),
                                          "14 non-default modes, sampled flag combinations / qualifications" if quick else "15 modes x 4 (normalize_names, group_by_type) combinations (followers: 2)",
                                          n_rand, "4 modes x 2 flag combinations" if quick else "15 modes x 2 flag combinations", len(cp),
-                                         "3 rotating modes (bigquery always) x 1 rotating flag combination" if quick else "15 modes x 4 flag combinations"))
+                                         "2-3 rotating modes (bigquery always) x 1 rotating flag combination" if quick else "15 modes x 4 flag combinations"))
